@@ -80,6 +80,7 @@ def run(run):
     check_invoke_off(run, run.rng, run.tier == "quick")
     check_reentrant(run, run.rng, run.tier == "quick")
     flat_selection(run, run.tier == "quick")
+    if_switched_off(run, run.tier == "quick")
     idc = [identity_case(run.rng) for _ in range(200 if run.tier == "quick" else 4000)]
     res = c04.run_cases(run, idc, "selid", use_oracle=False)
     for c, r in zip(idc, res):
@@ -305,3 +306,49 @@ def flat_selection(run, quick):
 
 def replay(data):
     return c04.replay(data)
+
+
+
+def if_switched_off(run, quick):
+    """expand(..., expand_parserfns=False) on {{#if: cond | ...}} against c13_if_is_emitted_as_written_when_switched_off: the call
+    comes back as written (condition without the blanks around it, the other arguments untouched and unexpanded)."""
+    rng = run.rng
+    cases = []
+    for _ in range(150 if quick else 3000):
+        cond = rng.choice(["", " ", "x", " x ", "\n", "0", "a=b", "  \t", " x y ", "x\n"])
+        def piece():
+            r = rng.random()
+            if r < 0.4:
+                return rng.choice(["", "a", " a ", "\na\n", "*li", "x=y", " ", "b c"])
+            return rng.choice(["", " ", "x"]) + "{{" + "|".join([rng.choice(["i", "nosuch", " i "])] +
+                                                              [rng.choice(["p", " q ", "k=v", ""]) for _ in range(rng.randint(0, 2))]) + "}}" + rng.choice(["", " z"])
+        more = [piece() for _ in range(rng.randint(0, 3))]
+        cases.append({"lib": [["I", rng.choice(["", "B", "[{{{1}}}]"]), False]], "page": "{{#if:" + "|".join([cond] + more) + "}}",
+                      "opts": {"parserfns": False, "pre_expand": rng.random() < 0.3}, "title": "Tt"})
+    res = lib.run_impl("expandlib", cases, shards=lib.NCPU)
+    coq_cases, idx = [], []
+    for i, (c, r) in enumerate(zip(cases, res)):
+        run.count({"ifoff": c["page"], "opts": c["opts"]}, c["page"].count("|") >= 2, "if-switched-off")
+        if r.get("outcome") != "ok":
+            run.property_failure("ifoff:%s:%s" % (r.get("outcome"), r.get("exc", "")), "expand() did not return normally: %r" % (r,), c)
+            continue
+        pa = r["page_ast"]
+        if len(pa) != 1 or isinstance(pa[0], int) or pa[0][0] != "T" or any(not isinstance(y, int) for y in pa[0][1][0]) \
+                or pa[0][1][0][:4] != [35, 105, 102, 58]:
+            run.correspondence_break("a generated #if call was not read as one call with a plain condition", c, page_ast=pa)
+            continue
+        # the right-hand side of the theorem is a tree; the code's result is text: compare with the rendering of the tree,
+        # which for arguments of text and calls is the text they were written as
+        coq_cases.append("(%s, %s, %s)" % (G.coq_enc(pa[0][1][0][4:]), c04.clist(pa[0][1][1:], G.coq_enc, "enc"), c04.cstr(r["out"])))
+        idx.append(i)
+    bad, errs = lib.coq_eval_failing(
+        "c13o", c04.IMPORTS + ["Model.FlatCall", "Proofs.IdentityProofs"], "enc * list enc * str", coq_cases,
+        "fun '(c, m, o) => plain c && str_eqb (render (chars s_lbrace2 ++ chars [35; 105; 102] ++ [Ch 58] ++ "
+        "join_i vbar (lstrip_i (rstrip_i c) :: m) ++ chars s_rbrace2)%list) o", chunk=300)
+    for e in errs:
+        run.correspondence_break("model evaluation failed (#if switched off)", None, error=e)
+    for b in bad:
+        c = cases[idx[b]]
+        run.property_failure("c13:if-switched-off-is-not-emitted-as-written",
+                             "expand(%r, expand_parserfns=False, pre_expand=%r) gave %r" % (c["page"], c["opts"]["pre_expand"], res[idx[b]]["out"]), c)
+    run.extra["if_calls_switched_off_checked_against_the_rule"] = len(coq_cases)
